@@ -202,3 +202,5 @@ def s3(I):
     I.check('supply_at_least_minliq', b.supply[LP] >= MINLIQ)
     I.check('locked_min_liquidity_untouched', smt.Eq(b.get(PM, LP), MINLIQ))
     I.check('at_least_share_minus_one', smt.And(ra >= ex_a - 1, rb >= ex_b - 1))
+
+from . import stable3   # noqa: E402,F401  (three-asset stableswap accounting obligations registered for this property)
